@@ -293,7 +293,19 @@ def run_shard(ctx):
             other_gen = gen_dsl.Gen(rng, max_depth=1, share=0.0)
             other_gen.class_count = 80
             other = gen_dsl.build(other_gen.klass(1))
-            definitions[def_key(rng, 0)] = rng.choice([other, sut.Array(other), sut.AnyOf(other, sut.String())])
+            held = rng.choice([other, other, sut.Array(other), sut.AnyOf(other, sut.String())])
+            if held is other and rng.random() < 0.6:
+                # the obvious key for a class is its own name
+                definitions[other.__name__] = held
+                ctx.count("definitions.class_under_its_own_name")
+            else:
+                definitions[def_key(rng, 0)] = held
+            if rng.random() < 0.4:
+                inner = [cls for cls in sut.get_object_classes(element) if cls is not element]
+                if inner:
+                    chosen = rng.choice(inner)
+                    definitions[chosen.__name__] = chosen
+                    ctx.count("definitions.inner_class_under_its_own_name")
             ctx.count("definitions.holding_class")
         case["definitions_mode"] = mode
         # F08 structural trigger: classes reachable only through definitions=
